@@ -279,6 +279,7 @@ def r5(ctx):
     ctx.sub(c01.r7)                          # which follows the stored back-pointers
     from . import c19
     ctx.sub(c19.r3)                          # the compiled kernel accepts a per-pair vector (no explicit scalar-only signature)
+    ctx.sub(c01.r9, only=("handover:price",))   # and the relabel phase hands it the price vector as it stands (no "constant vector" collapse)
 
 
 @rule("C07", "R6", "RANGE", "each series is stacked exactly (no window mixes two series; no series loses or gains rows)")
@@ -293,3 +294,5 @@ def r7(ctx):
     ctx.sub(c04.r4)
     ctx.sub(c04.r1)
     ctx.sub(c04.r3)                          # the joint labels are cut at the series boundaries, one fresh list per call
+    from . import c06
+    ctx.sub(c06.r4, only=("copy:label_assignment_cost",))   # "the reported cost equals": the joint result carries the master run's cost
